@@ -6,6 +6,7 @@ fn dispatch(ctx: &Ctx) {
     match ctx.prop.as_str() {
         "C04" => vcore::c04::run(ctx),
         "C05" => vcore::c05::run(ctx),
+        "C09" => vcore::c09::run(ctx),
         "C10" => vcore::c10::run(ctx),
         "C11" => vcore::c11::run(ctx),
         "C13" => vcore::c13::run(ctx),
